@@ -97,7 +97,10 @@ impl Logger {
         // bytes cannot be read; a continuation that would take the open group above 384
         // bytes cannot be stored. Such lines are rejected and (C17) leave no trace, so the
         // expected behaviour is that of a parser that never saw them.
-        let skip = plen > 384 || (n >= 2 && k >= 2 && self.open_len as i64 + plen > 384);
+        // every line except an in-domain opener (k == 1 < n) and a single-sentence message
+        // (n == 1) is appended to the open group if sequencing accepts it
+        let appends = plen >= 0 && n != 1 && !(k == 1 && k < n);
+        let skip = plen > 384 || (appends && self.open_len as i64 + plen > 384);
         let (skind, scanon, sover) = if skip {
             ("LE", "E:capacity".to_string(), 0)
         } else {
